@@ -122,3 +122,55 @@ Proof.
     split; [exact H1|]. rewrite <- H2. f_equal. lra.
 Qed.
 End Micro.
+
+(* ---- psd_microporous(adsorbate_model=None): where the adsorbate parameter record comes from, and what the module remembers.
+   `psd_microporous_adsorbate_model` and `psd_micro_module_writes` are GENERATED (tools/py2v_hk.py: every assignment to
+   `adsorbate_model` in the function with its guards and sources; every write of a function of psd_micro.py to a module-level name,
+   function attribute or argument, every memoising decorator). *)
+Lemma adsorbate_model_documented_l :
+  psd_microporous_adsorbate_model =
+    [("adsorbate_model is None",
+      [("molecular_diameter", FromProperty "molecular_diameter"); ("polarizability", FromProperty "polarizability");
+       ("magnetic_susceptibility", FromProperty "magnetic_susceptibility"); ("surface_density", FromProperty "surface_density");
+       ("liquid_density", FromMethodAtIsothermTemperature "liquid_density"); ("adsorbate_molar_mass", FromMethod "molar_mass")])]%string.
+Proof. reflexivity. Qed.
+Lemma module_keeps_no_state_l : psd_micro_module_writes = [].
+Proof. reflexivity. Qed.
+
+Section DefaultAdsorbate.
+Variable prop : string -> R.            (* isotherm.adsorbate.get_prop(key) *)
+Variable method0 : string -> R.         (* isotherm.adsorbate.<method>() *)
+Variable methodT : string -> R -> R.    (* isotherm.adsorbate.<method>(temperature) *)
+Definition source_value (T : R) (s : ads_source) : option R :=
+  match s with
+  | FromProperty k => Some (prop k) | FromMethodAtIsothermTemperature m => Some (methodT m T) | FromMethod m => Some (method0 m)
+  | OtherSource _ => None end.
+Fixpoint source_of (key : string) (tbl : list (string * ads_source)) : option ads_source :=
+  match tbl with [] => None | (k, v) :: r => if String.eqb key k then Some v else source_of key r end.
+Definition key_value (T : R) (tbl : list (string * ads_source)) (key : string) : option R :=
+  match source_of key tbl with Some s => source_value T s | None => None end.
+(* the record handed to the low-level function for an isotherm at temperature T: the ONLY assignment, taken when no model was passed *)
+Definition default_hkads (T : R) : option (hkads RNum) :=
+  match psd_microporous_adsorbate_model with
+  | [(g, tbl)] =>
+      if negb (String.eqb g "adsorbate_model is None") then None else
+      match key_value T tbl "molecular_diameter", key_value T tbl "polarizability", key_value T tbl "magnetic_susceptibility",
+            key_value T tbl "surface_density", key_value T tbl "liquid_density", key_value T tbl "adsorbate_molar_mass" with
+      | Some a, Some b, Some c, Some d, Some e, Some f => Some (mk_hkads RNum a b c d e f)
+      | _, _, _, _, _, _ => None end
+  | _ => None end.
+(* it is a function of THIS call's adsorbate and temperature only: four stored properties, the liquid density at the isotherm
+   temperature, the molar mass *)
+Lemma default_hkads_l : forall T,
+  default_hkads T = Some (mk_hkads RNum (prop "molecular_diameter") (prop "polarizability") (prop "magnetic_susceptibility")
+                                   (prop "surface_density") (methodT "liquid_density" T) (method0 "molar_mass")).
+Proof. reflexivity. Qed.
+(* ... hence the cumulative pore volume of a default call is the loading as liquid volume AT THE ISOTHERM'S OWN TEMPERATURE *)
+Lemma default_cumulative_l : forall T ads (W P Ld : list R), default_hkads T = Some ads ->
+  (length W <= length Ld)%nat -> forall i, (i + 1 < length W)%nat ->
+  nth i (snd (hk_tail RNum ads W P Ld)) 0 = nth (i + 1) Ld 0 * method0 "molar_mass" / methodT "liquid_density" T / 1000.
+Proof.
+  intros T ads W P Ld H Hl i Hi. rewrite default_hkads_l in H. injection H as <-.
+  rewrite (tail_cumulative _ W P Ld Hl i Hi). reflexivity.
+Qed.
+End DefaultAdsorbate.
